@@ -31,9 +31,11 @@ class ResWorld(World):
     name = "W-res"
 
     def __init__(self, variant: str = "full", low_energy: bool = True, pairs: bool = True, prices: bool = False,
-                 mechs=("quiet", "small", "quiet"), idle_timeout: int = 120):
+                 mechs=("quiet", "small", "quiet"), idle_timeout: int = 120, gas: bool = False, name: str = ""):
         super().__init__()
         self.pairs = pairs
+        if name:
+            self.name = name
         S = sites()
         self.S = S
         cfg = make_config(step=60, cancel=240, idle_timeout=idle_timeout)
@@ -41,14 +43,14 @@ class ResWorld(World):
         rn = HaversineRoadNetwork(sim_h3_resolution=15)
         self.rn = rn
         env = self.env
-        s0 = mk_station(env, rn, "s0", S["N1"], {"DCFC": 1, "LEVEL_2": 1})
+        s0 = mk_station(env, rn, "s0", S["N1"], {"DCFC": 1, "LEVEL_2": 1, "GAS_PUMP": 1} if gas else {"DCFC": 1, "LEVEL_2": 1})
         s1 = mk_station(env, rn, "s1", S["F1"], {"DCFC": 1})
         bs = mk_station(env, rn, "bs", S["X1"], {"LEVEL_2": 1})
         b0 = mk_base(rn, "b0", S["X1"], stalls=1, station_id="bs")
         b1 = mk_base(rn, "b1", S["M1"], stalls=1, station_id=None)
         v0 = mk_vehicle(env, rn, "v0", S["A"], mechs[0], soc=0.5, energy=0.10 if (low_energy and mechs[0] != "ice") else None)
         v1 = mk_vehicle(env, rn, "v1", S["N1"], mechs[1], energy=0.70 if mechs[1] == "small" else None)
-        v2 = mk_vehicle(env, rn, "v2", S["X1"], mechs[2], soc=0.5)
+        v2 = mk_vehicle(env, rn, "v2", S["X1"], mechs[2], soc=0.5, energy=0.05 if mechs[2] == "ice" else None)
         sim = build_sim(env, rn, vehicles=(v0, v1, v2), stations=(s0, s1, bs), bases=(b0, b1))
         self.starts = {"init": sim}
         self.request_specs = {"r0": {"origin": S["N2"], "destination": S["M2"]}}
@@ -72,6 +74,8 @@ class ResWorld(World):
             ("ChargeBase", "b0", "LEVEL_2"),
             ("Reposition", link_m),
         ]
+        if gas:
+            per_vehicle += [("DispatchStation", "s0", "GAS_PUMP"), ("ChargeStation", "s0", "GAS_PUMP")]
         if variant == "full":
             per_vehicle += [
                 ("DispatchStation", "s0", "LEVEL_1"),  # plug type not installed
